@@ -178,7 +178,7 @@ func listSuffixOnlyForListsRule(c *Ctx) {
 	}
 	for _, fn := range p.FuncsIn(pkgDynCache) {
 		for _, call := range callsIn(fn) {
-			if calleeID(call.Common) != "strings.TrimSuffix" || len(call.Common.Args) != 2 {
+			if id := calleeID(call.Common); (id != "strings.TrimSuffix" && id != "strings.CutSuffix") || len(call.Common.Args) != 2 {
 				continue
 			}
 			if s, ok := constString(call.Common.Args[1]); !ok || s != "List" {
